@@ -5,6 +5,7 @@ import (
 	"flag"
 	"fmt"
 	"os"
+	"runtime/pprof"
 	"strconv"
 
 	"verif/internal/ev"
@@ -46,12 +47,20 @@ func main() {
 	if cfg.Workers <= 0 {
 		cfg.Workers = props.DefaultWorkers()
 	}
+	if pf := os.Getenv("VCHECK_CPUPROFILE"); pf != "" {
+		if f, err := os.Create(pf); err == nil {
+			_ = pprof.StartCPUProfile(f)
+			defer pprof.StopCPUProfile()
+		}
+	}
 	if cfg.Child != "" {
 		if e.ChildMain == nil {
 			fmt.Fprintln(os.Stderr, "no child mode for", *prop)
 			os.Exit(2)
 		}
-		os.Exit(e.ChildMain(cfg))
+		code := e.ChildMain(cfg)
+		pprof.StopCPUProfile()
+		os.Exit(code)
 	}
 	var rf *ev.ReplayFile
 	if *replay != "" {
